@@ -182,7 +182,196 @@ class ExprMixin:
         v = st.lookup(n.id)
         if v is not None:
             return [(st, v)]
+        if getattr(self.reg, "global_cells", False):
+            r = self.read_global_cell(st, n.id, n)
+            if r is not None:
+                return r
         return [(st, self.global_name(n.id, n))]
+
+    # ---- module globals that functions assign (`global X; X = ...`): opt-in with `reg.global_cells = True` ------------------
+    # A global of the module under execution that some function of the module declares `global` and binds is a *cell*: what a
+    # read sees is (a) the value the current path stored or read last (ghost ("global", rel, name); dropped when a callee is applied by
+    # contract, since the callee may store), else (b) any member of the cell's value set S -- the least set that contains the
+    # module-level initialiser and every value that a writer function, executed by the engine from a state in which the cell
+    # holds a member of S and with unknown parameters, stores.  S is computed by fixpoint iteration and exists only when all its
+    # members are *closed* (functions, types, modules, None, literals, tuples of those): a memo / lazily resolved import.  A read
+    # then forks over S (inductive module invariant "X in S": holds after import, preserved by every function that can assign X).
+    # When a stored value is not closed but it and all members of S are ints (or all bools, or all strs) the cell is "some value
+    # of that type" (a counter, a flag): a read gives a fresh symbolic value of the type (invariant: the type).
+    # Anything else -- writers outside the subset, a stored value that depends on a parameter, no fixpoint in 4 rounds, a binding
+    # form other than plain assignment, `globals()` / `setattr` in the module -- makes the read an unknown value (VUnk), never the
+    # initialiser.  `reg.module_consts` overrides win (a pack's own model of a configuration object).  Not covered (assumed):
+    # stores from other modules (`mod.X = ...`).
+    def store_global(self, st, name, v):
+        st.ghost[("global", self.module.rel, name)] = v
+        coll = getattr(self.reg, "_gcell_collect", None)
+        if coll is not None:
+            coll.append(((self.module.rel, name), v))
+
+    def drop_global_cells(self, st):
+        for k in [k for k in st.ghost if isinstance(k, tuple) and len(k) == 3 and k[0] == "global"]:
+            del st.ghost[k]
+
+    def global_writers(self, name):
+        mod = self.module
+        idx = getattr(mod, "_gwriters", None)
+        if idx is None:
+            idx = mod._gwriters = {}
+            for q, fn in mod.functions.items():
+                for x in ast.walk(fn):
+                    if isinstance(x, ast.Global):
+                        for nm in x.names:
+                            if q not in idx.setdefault(nm, []):
+                                idx[nm].append(q)
+            mod._greflect = any(isinstance(x, ast.Name) and x.id in ("globals", "setattr", "vars", "exec", "eval") for x in ast.walk(mod.tree))
+        return idx.get(name, [])
+
+    @staticmethod
+    def closed_value_key(v):
+        """hashable identity of a closed value, None when the value is not closed"""
+        if isinstance(v, VNoneT):
+            return ("none",)
+        if isinstance(v, VFunc) and v.how in ("repo", "ext", "builtin") and all(isinstance(x, (str, type(None))) for x in (v.a, v.b)):
+            return ("func", v.how, v.a, v.b)
+        if isinstance(v, VType):
+            return ("type", v.name)
+        if isinstance(v, VMod):
+            return ("mod", v.name)
+        if isinstance(v, (VStr, VInt, VBool)) and z3.is_expr(v.t):
+            t = z3.simplify(v.t)
+            if z3.is_string_value(t) or z3.is_int_value(t) or z3.is_true(t) or z3.is_false(t) or z3.is_bv_value(t):
+                return ("lit", type(v).__name__, t.sexpr())
+            return None
+        if isinstance(v, VTuple):
+            ks = [ExprMixin.closed_value_key(x) for x in v.items]
+            return None if any(k is None for k in ks) else ("tuple", tuple(ks))
+        return None
+
+    def global_cell_values(self, name):
+        """-> list of closed values (the set S) or None (unknown)"""
+        mod = self.module
+        cells = getattr(mod, "_gcells", None)
+        if cells is None:
+            cells = mod._gcells = {}
+        if name in cells:
+            return cells[name]
+        writers = self.global_writers(name)
+        if getattr(mod, "_greflect", False) or name not in mod.assigns:
+            cells[name] = None
+            return None
+        # binding forms other than `X = value` / `X: T = value` / `X op= value` inside a writer are not collected -> unknown
+        for q in writers:
+            for x in ast.walk(mod.functions[q]):
+                bad = None
+                if isinstance(x, (ast.For, ast.AsyncFor, ast.NamedExpr, ast.comprehension)):     # (augmented assignment goes through assign())
+                    bad = x.target
+                elif isinstance(x, ast.withitem):
+                    bad = x.optional_vars
+                elif isinstance(x, ast.ExceptHandler) and x.name == name:
+                    cells[name] = None
+                    return None
+                elif isinstance(x, (ast.Import, ast.ImportFrom)) and any((a.asname or a.name.split(".")[0]) == name for a in x.names):
+                    cells[name] = None
+                    return None
+                elif isinstance(x, (ast.FunctionDef, ast.AsyncFunctionDef, ast.ClassDef)) and x.name == name and x is not mod.functions[q]:
+                    cells[name] = None
+                    return None
+                elif isinstance(x, ast.Delete):
+                    bad = ast.Tuple(elts=list(x.targets))
+                if bad is not None and any(isinstance(y, ast.Name) and y.id == name for y in ast.walk(bad)):
+                    cells[name] = None
+                    return None
+        try:
+            init = self.module_const(name)
+        except Unsupported:
+            init = None
+        k0 = self.closed_value_key(init) if init is not None else None
+        if k0 is None:
+            cells[name] = None
+            return None
+        S = {k0: init}
+        sort = None            # VInt / VBool / VStr: "some value of that type" (counters, flags) once a stored value is not closed
+        saved = getattr(self.reg, "_gcell_collect", None)
+        try:
+            for _round in range(5):
+                cells[name] = ("sort", sort) if sort is not None else list(S.values())   # what reads inside the writers see
+                grown = False
+                for q in writers:
+                    coll = self.reg._gcell_collect = []
+                    fnode = mod.functions[q]
+                    a = fnode.args
+                    env = {p.arg: VUnk(f"param:{p.arg}") for p in a.posonlyargs + a.args + a.kwonlyargs}
+                    if a.vararg is not None:
+                        env[a.vararg.arg] = VUnk("param:*")
+                    if a.kwarg is not None:
+                        env[a.kwarg.arg] = VUnk("param:**")
+                    sub = self.sub_executor(mod)
+                    sub.sinks = [[]]
+                    sub.contract = None
+                    sub.inline_depth = 1          # no loop specs of the function under verification apply
+                    try:
+                        sub.run_body(State(), fnode, env, None)
+                    except Exception:             # Unsupported, PathLimit, ...: the writer is outside the subset
+                        cells[name] = None
+                        return None
+                    for (key, v) in coll:
+                        if key != (mod.rel, name):
+                            continue
+                        if sort is not None:
+                            if type(v) is not sort or (sort is VInt and v.is_bv):
+                                cells[name] = None
+                                return None
+                            continue
+                        kv = self.closed_value_key(v)
+                        if kv is None:
+                            if type(v) in (VInt, VBool, VStr) and not (type(v) is VInt and v.is_bv) and all(type(x) is type(v) for x in S.values()):
+                                sort, grown = type(v), True
+                                continue
+                            cells[name] = None
+                            return None
+                        if kv not in S:
+                            S[kv] = v
+                            grown = True
+                if not grown:
+                    cells[name] = ("sort", sort) if sort is not None else list(S.values())
+                    return cells[name]
+                if sort is None and _round >= 1:
+                    # widening: a set of literals of one type that is still growing (a counter) becomes "some value of the type"
+                    kinds = {type(x) for x in S.values()}
+                    if len(kinds) == 1 and next(iter(kinds)) in (VInt, VBool, VStr) and not any(type(x) is VInt and x.is_bv for x in S.values()):
+                        sort = next(iter(kinds))
+            cells[name] = None
+            return None
+        finally:
+            self.reg._gcell_collect = saved
+
+    def read_global_cell(self, st, name, node=None):
+        """-> [(state, value)] for a read of a function-assigned module global, None when `name` is not one"""
+        key = ("global", self.module.rel, name)
+        if key in st.ghost:
+            return [(st, st.ghost[key])]
+        if (self.module.rel, name) in self.reg.module_consts:
+            return None
+        if not self.global_writers(name):
+            return None
+        vals = self.global_cell_values(name)
+        if vals is None:
+            return [(st, self.unknown_global(st, name))]
+        if isinstance(vals, tuple):        # ("sort", cls): some value of that type
+            cls = vals[1]
+            nm = fresh_name(f"global_{name}")
+            v = VInt(z3.Int(nm)) if cls is VInt else VBool(z3.Bool(nm)) if cls is VBool else VStr(z3.String(nm))
+            st.ghost[key] = v
+            return [(st, v)]
+        out = []
+        for v in vals:
+            s2 = st.fork() if len(vals) > 1 else st
+            s2.ghost[key] = v          # the path has chosen: later reads see the same value until a store / a modular call
+            out.append((s2, v))
+        return out
+
+    def unknown_global(self, st, name):
+        return VUnk(f"global:{name}")
 
     def global_name(self, name, node=None) -> V:
         key = (self.module.rel, name)
